@@ -9,8 +9,11 @@ ops:
   {"op":"tokens","type":T,"cc":…,"text":[cp…]}                        → {"ok":true,"vals":[V…]} | {"ok":false,"left":n}
   {"op":"proc","name":N,"text":[cp…]}                                 → {"val":V}
   {"op":"kwlike","cc":…,"lits":[[cp…]…],"icase":b}                     → {"kw":[b…]}
-  {"op":"compile","cc":…,"lits":[[cp…]…],"autokwd":b,"icase":b}        → {"toks":[{"kind":"str","lit":…,"icase":b}|{"kind":"re","re":AST,"value":[cp…]}…]}
-  {"op":"parse","cc":…,"g":PE,"icase":b,"text":[cp…]}                  → {"on":P,"off":P}, P = {"ok":b,"toks":[[pos,[cp…]]…]} (autokwd on / off)
+  {"op":"compile","cc":…,"lits":[[cp…]…],"autokwd":b,"icase":b}        → {"toks":[{"kind":"str","lit":…,"icase":b}|{"kind":"re","re":AST,"value":[cp…],"groups":n}…]}
+  {"op":"parse","cc":…,"g":PE,"icase":b,"ws":[cp…],"ug":b,"text":[cp…]} → {"on":P,"off":P}, P = {"ok":b,"toks":[[pos,value,attr]…]} (autokwd on / off;
+        ws = the whitespace set ([] for skipws=False), ug = use_regexp_group; attr = the value for the object graph)
+PE = ["lit",[cp…]] | ["id"] | ["int"] | ["rx",AST,AST|null] | ["seq",a,b] | ["choice",a,b] | ["star",a] | ["opt",a] | ["not",a]
+   | ["empty"] | ["plus",a] | ["and",a] | ["sepplus",a,sep] | ["sepstar",a,sep]
 V = {"b":bool} | {"s":[cp…]} | {"i":"decimal"} | {"f":[cp…]}
 -/
 open Lean Wire Re
@@ -127,6 +130,14 @@ partial def pe? (j : Json) : Option Kwd.PE := do
   | "opt" => pure (.opt (← pe? (← a[1]?)))
   | "not" => pure (.notP (← pe? (← a[1]?)))
   | "empty" => pure .empty
+  | "rx" =>
+    let body ← a[2]?
+    if body.isNull then pure (.rx (← re? (← a[1]?)) none)
+    else pure (.rx (← re? (← a[1]?)) (some (← re? body)))
+  | "plus" => pure (Kwd.PE.plus (← pe? (← a[1]?)))
+  | "and" => pure (Kwd.PE.andP (← pe? (← a[1]?)))
+  | "sepplus" => pure (Kwd.PE.sepPlus (← pe? (← a[1]?)) (← pe? (← a[2]?)))
+  | "sepstar" => pure (Kwd.PE.sepStar (← pe? (← a[1]?)) (← pe? (← a[2]?)))
   | _ => none
 
 def handle (j : Json) : Json :=
@@ -162,20 +173,25 @@ def handle (j : Json) : Json :=
     match cc? j, (getArr? j "lits").bind (fun a => a.toList.mapM chars?), getBool? j "autokwd", getBool? j "icase" with
     | some cc, some lits, some ak, some ic =>
       Json.mkObj [("toks", toJson (lits.map fun lit =>
-        match Kwd.compileLit cc ⟨ak, ic⟩ lit with
+        let tok := Kwd.compileLit cc ⟨ak, ic⟩ lit
+        match tok with
         | .str l i => Json.mkObj [("kind", "str"), ("lit", cps l), ("icase", toJson i)]
-        | .re r v => Json.mkObj [("kind", "re"), ("re", reJ r), ("value", match v with | some l => cps l | none => Json.null)]))]
+        | .re r v => Json.mkObj [("kind", "re"), ("re", reJ r), ("value", match v with | some l => cps l | none => Json.null),
+            ("groups", toJson tok.groups)]
+        | .reG pre body => Json.mkObj [("kind", "re"), ("re", reJ (.seq pre body)), ("value", Json.null),
+            ("groups", toJson tok.groups)]))]
     | _, _, _, _ => badOp
   | some "parse" =>
-    match cc? j, (getObj? j "g").bind pe?, getBool? j "icase", (getObj? j "text").bind chars? with
-    | some cc, some g, some ic, some text =>
+    match cc? j, (getObj? j "g").bind pe?, getBool? j "icase", (getObj? j "text").bind chars?,
+        (getObj? j "ws").bind chars?, getBool? j "ug" with
+    | some cc, some g, some ic, some text, some ws, some ug =>
       let run (ak : Bool) : Json :=
-        match Kwd.parseText cc ⟨ak, ic⟩ g text with
+        match Kwd.parseText cc ⟨ak, ic⟩ ⟨ws, ug⟩ g text with
         | some toks => Json.mkObj [("ok", toJson true),
-            ("toks", toJson (toks.map fun (p, v) => toJson [toJson p, cps v]))]
+            ("toks", toJson (toks.map fun (p, v, a) => toJson [toJson p, cps v, cps a]))]
         | none => Json.mkObj [("ok", toJson false)]
       Json.mkObj [("on", run true), ("off", run false)]
-    | _, _, _, _ => badOp
+    | _, _, _, _, _, _ => badOp
   | _ => badOp
 
 def main : IO Unit := serve handle
